@@ -29,6 +29,10 @@ func jsonRoundTrip(r *ev.Run, c *ev.Case, a *message.Attributes) {
 	if r.Guard(c, "Marshal", rec{Attrs: a, What: "json"}, func() { text, err = a.Marshal() }) {
 		return
 	}
+	if err == nil {
+		ac := *a // the encoder gives the same text for the same value whenever asked, also from several goroutines at once
+		encRing.Add(r, c, func() string { return ev.Digest(func() string { t, e := ac.Marshal(); return fmt.Sprint(t, e != nil) }) }, fmt.Sprint(text, false), given)
+	}
 	if now := js(a); now != given {
 		// the round trip is judged against the value the caller passed, not against what encoding left of it
 		r.Violation(c, "encoder-changes-the-value-it-was-given:json", fmt.Sprintf("before Marshal: %s\nafter Marshal:  %s", given, now), rec{Attrs: a, What: "json"})
@@ -101,6 +105,21 @@ func legacyRoundTrip(r *ev.Run, c *ev.Case, a *message.Attributes, direct bool) 
 		}
 	}) {
 		return
+	}
+	if err == nil {
+		ac := *a
+		encRing.Add(r, c, func() string {
+			return ev.Digest(func() string {
+				var t string
+				var e error
+				if direct {
+					t, e = ac.MarshalLegacy()
+				} else {
+					t, e = ac.Marshal()
+				}
+				return fmt.Sprint(t, e != nil)
+			})
+		}, fmt.Sprint(text, false), given)
 	}
 	if now := js(a); now != given {
 		r.Violation(c, "encoder-changes-the-value-it-was-given:"+what, fmt.Sprintf("before: %s\nafter:  %s", given, now), rec{Attrs: a, What: what})
@@ -191,7 +210,7 @@ func legacyRoundTrip(r *ev.Run, c *ev.Case, a *message.Attributes, direct bool) 
 
 // jsonNotLegacy: any text that decodes as a JSON attribute object must get the
 // JSON interpretation (or the required-field error), never the legacy one.
-var ring *ev.Ring
+var ring, encRing *ev.Ring
 
 func unmarshalDigest(text string) string {
 	a, err := message.Unmarshal(text)
@@ -361,6 +380,7 @@ func main() {
 		r.Rule("seeded attribute sets (all boolean combinations, algorithm numbers -1..20, touchless-sudo nil/empty/partial/full, nested extension maps of JSON-native values incl. strings that look like legacy tokens, UTF-8 strings) round-tripped through Marshal/Unmarshal in the JSON format (ifVer>=7) and the legacy format (ifVer<7, values free of whitespace and '@', also through MarshalLegacy/UnmarshalLegacy directly); JSON objects with missing required fields and embedded legacy tokens; JSON scalars; legacy texts assembled from tokens with repeats, empty values, '=' in values and stray separators. distinct_nontrivial = distinct wire texts that completed a round trip or reached the JSON-object decision")
 		r.Assume("ext values are JSON-native (numbers are float64)", "strings are valid UTF-8", "reference legacy tokenizer: split on space, trim, first '=', last key wins")
 		ring = ev.NewRing("message.Unmarshal", r.Seed, 41)
+		encRing = ev.NewRing("Attributes.Marshal", r.Seed+1, 43)
 		n := r.Pick(6000, 160000)
 		for i := 0; i < n; i++ {
 			if c := r.Case("json", i); c != nil {
@@ -395,6 +415,7 @@ func main() {
 		}
 		if r.Replay == nil {
 			ring.Stress(r, r.CaseAlways("stress", 0), 8, 2)
+			encRing.Stress(r, r.CaseAlways("stress", 1), 8, 3)
 		}
 		r.Floor(int64(r.Pick(20000, 500000)), 3000)
 	})
